@@ -61,12 +61,12 @@ Theorem C17_abstract_unmapped : abstract_unmapped tbl = [k_abcByteString].
 Proof. vm_compute. reflexivity. Qed.
 Theorem C17_origin_concrete : forall t c,
   chain_ok t = true -> head_class tbl (strip t) = Some c -> subclass tbl c c_Collection = true ->
-  c <> k_abcByteString -> subclass tbl (doc_map tbl c) c_abcCallable = false ->
+  c <> k_abcByteString ->
   origin tbl t = IClass (doc_map tbl c)
   /\ is_abstract_cls tbl (doc_map tbl c) = false /\ same_kind tbl (doc_map tbl c) c = true.
 Proof.
-  intros t c Hc Hh Hcol Hne Hcall.
-  apply (origin_concrete tbl t c C17_tables_ok Hc Hh Hcol); [|exact Hcall].
+  intros t c Hc Hh Hcol Hne.
+  apply (origin_concrete tbl t c C17_tables_ok Hc Hh Hcol).
   rewrite C17_abstract_unmapped. intros [H|[]]. apply Hne. symmetry. exact H.
 Qed.
 
@@ -116,10 +116,12 @@ Proof. exists (IAlias "A" (INewType "N" (IClass c_date))). vm_compute. repeat sp
 Theorem C17_refuted_alias_alias : exists t,
   runtime_says tbl P_isstringtype t = Some true /\ chain_ok t = false /\ run_pred tbl P_isstringtype t = Ok false.
 Proof. exists (IAlias "A" (IAlias "B" (IClass c_str))). vm_compute. repeat split. Qed.
-(* a class whose instances are callable has origin typing.Callable: class-valued predicates raise *)
-Theorem C17_refuted_callable_class : exists t,
-  runtime_says tbl P_isdatetype t = Some false /\ chain_ok t = true /\ run_pred tbl P_isdatetype t = Raise EType.
-Proof. exists (IClass k_UCallable). vm_compute. repeat split. Qed.
+(* (repaired in d552f9e: a class whose instances are callable keeps itself as origin) *)
+Example C17_callable_class_agrees :
+  runtime_says tbl P_isdatetype (IClass k_UCallable) = Some false
+  /\ c17_guard tbl P_isdatetype (IClass k_UCallable) = true
+  /\ origin tbl (IClass c_type) = IClass c_type.
+Proof. vm_compute. repeat split. Qed.
 (* the raw family does not take the typing origin: typing.Pattern[str], re.Pattern[str] *)
 Theorem C17_refuted_raw_generic : exists t,
   runtime_says tbl P_ispatterntype t = Some true /\ chain_ok t = true /\ run_pred tbl P_ispatterntype t = Ok false.
@@ -157,7 +159,6 @@ Print Assumptions C17_origin_concrete.
 Print Assumptions C17_stable.
 Print Assumptions C17_refuted_alias_chain.
 Print Assumptions C17_refuted_alias_alias.
-Print Assumptions C17_refuted_callable_class.
 Print Assumptions C17_refuted_raw_generic.
 Print Assumptions C17_refuted_spelling_subscripted.
 Print Assumptions C17_refuted_cache_spelling.
